@@ -1323,6 +1323,127 @@ theorem old_fs_rollback_skipped_witness :
 theorem old_fs_tmp_leak_witness :
     (runOps {} (diskProgramC Cfg.old .thin .copy)).tmp = true ∧ (runOps {} (diskProgramC Cfg.old .addPack .copy)).tmp = true := by decide
 
+/-! ## 5b. a caching reader contains a failed read (`DiskRefsContainer.get_packed_refs`) -/
+
+/-- The cache invariant: a cache that carries the key of the file on disk is a COMPLETE parse of that file. -/
+def CacheOK (file : Option RFile) (c : RCache) : Prop :=
+  ∀ r k f, c.refs = some r → c.key = some k → file = some f → f.key = k → f.err = none ∧ r = f.parsed
+
+theorem cache_empty_ok (file : Option RFile) : CacheOK file RCache.empty := by
+  intro r k f h; simp [RCache.empty] at h
+
+/-- **A failed read records no key**: whatever the cache held before, after `get_packed_refs` raised the cache
+carries no validity key (depends on the statement order the translator found: `packedRefsKeyAfterParse`). -/
+theorem failed_read_records_no_key (file : Option RFile) (c : RCache) (e : Err)
+    (h : (getPackedNow file c).1 = .error e) : (getPackedNow file c).2.key = none := by
+  have hk : Gen.Ingest.packedRefsKeyAfterParse = true := rfl
+  unfold getPackedNow getPacked at h ⊢
+  simp only [hk, if_true] at h ⊢
+  split
+  · rename_i r hr; simp only [hr] at h; cases h
+  · rename_i hr
+    simp only [hr] at h
+    split
+    · rename_i hf; simp only at h; cases h
+    · split
+      · rfl
+      · rename_i hf he; simp only [he] at h; cases h
+
+/-- The invariant is kept by every read, failed or not, for the file that was read. -/
+theorem getPacked_keeps_CacheOK (file : Option RFile) (c : RCache) (hc : CacheOK file c) :
+    CacheOK file (getPackedNow file c).2 := by
+  have hk : Gen.Ingest.packedRefsKeyAfterParse = true := rfl
+  unfold getPackedNow getPacked
+  simp only [hk, if_true]
+  split
+  · rename_i r hr
+    split at hr
+    · simp [RCache.empty] at hr
+    · split <;> first | exact cache_empty_ok file | exact hc
+  · rename_i hr
+    split
+    · intro r k f _ h2; simp at h2
+    · rename_i f
+      split
+      · intro r k f' _ h2; simp at h2
+      · rename_i he
+        intro r k f' h1 h2 h3 h4
+        simp only [Option.some.injEq] at h1 h3
+        subst h3
+        exact ⟨he, h1.symm⟩
+
+/-- **damaged_file_always_raises**: through a container whose cache satisfies the invariant — in particular any
+container that has only ever read (`getPacked_keeps_CacheOK`), however often the reads failed — a file whose
+parse stops at a bad line is NEVER answered from a cache: every `get_packed_refs` raises again.  No silent
+subset. -/
+theorem damaged_file_always_raises (f : RFile) (c : RCache) (e : Err) (hc : CacheOK (some f) c) (he : f.err = some e) :
+    (getPackedNow (some f) c).1 = .error e := by
+  unfold getPackedNow getPacked
+  simp only
+  split
+  · rename_i r hr
+    split at hr
+    · simp [RCache.empty] at hr
+    · rename_i hcond
+      -- the cache is kept, so its key is the file's key: it would have to be a complete parse
+      exfalso
+      have hkey : c.key = some f.key := by
+        cases hk : c.key with
+        | none => simp [hr, hk] at hcond
+        | some k =>
+          simp only [hr, hk, Option.isSome_some, Bool.true_and, Option.map_some] at hcond
+          simpa using hcond
+      have := (hc r f.key f hr hkey rfl rfl).1
+      rw [he] at this; cases this
+  · simp [he]
+
+/-- **read_after_failed_read_is_a_fresh_read**: after a read that raised, the next read of whatever file is then
+on disk gives exactly what a brand-new container gives — result and cache. -/
+theorem read_after_failed_read_is_a_fresh_read (file : Option RFile) (c : RCache) (e : Err)
+    (h : (getPackedNow file c).1 = .error e) (f' : RFile) :
+    getPackedNow (some f') (getPackedNow file c).2 = getPackedNow (some f') RCache.empty := by
+  have hkey := failed_read_records_no_key file c e h
+  generalize (getPackedNow file c).2 = c' at hkey
+  unfold getPackedNow getPacked
+  cases hr : c'.refs with
+  | none => simp [hr, RCache.empty]
+  | some r => simp [hkey, RCache.empty]
+
+/-- **damage_not_laundered**: a rewrite (add_packed_refs, removal of a packed ref, pack_refs) through such a
+container raises on a damaged file and leaves the file exactly as it was — it cannot turn the parseable prefix
+into a clean file that has lost the refs behind the damage. -/
+theorem damage_not_laundered (f : RFile) (c : RCache) (e : Err) (hc : CacheOK (some f) c) (he : f.err = some e)
+    (newKey : Nat) (upd : List RefEntry → List RefEntry) :
+    rewritePackedNow (some f) c newKey upd = (.error e, some f, RCache.empty) := by
+  have := damaged_file_always_raises f c e hc he
+  unfold getPackedNow at this
+  unfold rewritePackedNow rewritePacked
+  simp [this]
+
+/-- Non-vacuity: a container reads an intact file, the file is replaced by a damaged one, reads and a rewrite
+fail, the damaged file is untouched, and after repair the container answers like a new one. -/
+example :
+    let e : RefEntry := ⟨[1], [2], none⟩
+    let good : RFile := ⟨[e, e], none, 7⟩
+    let bad : RFile := ⟨[e], some .format, 8⟩
+    let c1 := (getPackedNow (some good) RCache.empty).2
+    (getPackedNow (some good) RCache.empty).1.toOption = some [e, e] ∧
+    (getPackedNow (some bad) c1).1.toOption = none ∧
+    (getPackedNow (some bad) (getPackedNow (some bad) c1).2).1.toOption = none ∧
+    (rewritePackedNow (some bad) (getPackedNow (some bad) c1).2 9 id).2.1 = some bad ∧
+    (getPackedNow (some good) (getPackedNow (some bad) c1).2).1.toOption = some [e, e] := by decide
+
+/-- **key_before_parse_counterexample**: if the key were recorded BEFORE the parse loop (`keyAfterParse = false`),
+the read after a failed read would silently answer with the parsed prefix, and a rewrite would launder it into a
+clean file without the refs behind the damage. -/
+theorem key_before_parse_counterexample :
+    let e1 : RefEntry := ⟨[1], [2], none⟩
+    let bad : RFile := ⟨[e1], some .format, 8⟩
+    let c1 := (getPacked false (some bad) RCache.empty).2
+    (getPacked false (some bad) RCache.empty).1.toOption = none ∧
+    (getPacked false (some bad) c1).1.toOption = some [e1] ∧
+    (rewritePacked false (some bad) c1 9 id).2.1 = some ⟨[e1], none, 9⟩ := by decide
+
 /-! ## 6. guards the model relies on are present in the source (regenerated every run) -/
 
 /-- The per-entry inflate is capped at declared size + 1 and the result must have exactly the declared size
@@ -1331,6 +1452,8 @@ theorem guards_present :
     Gen.Ingest.zlibBounded = true ∧ Gen.Ingest.zlibSizeChecked = true ∧ Gen.Ingest.trailerVerified = true ∧
     Gen.Ingest.ofsZeroRejected = true ∧ Gen.Ingest.selfRefChecked = true ∧ Gen.Ingest.memChecksTrailer = true ∧
     Gen.Ingest.rollbackRemovesPack = true ∧ Gen.Ingest.rollbackRemovesIdx = true ∧ Gen.Ingest.abortRemovesTmp = true ∧
+    Gen.Ingest.packedRefsKeyAfterParse = true ∧ Gen.Ingest.packedRefsStaleChecked = true ∧
+    Gen.Ingest.packedRefsRewriteInvalidates = true ∧
     Cfg.current = ⟨true, true, true, false, (true, true), true⟩ := by
   decide
 
